@@ -222,7 +222,7 @@ func analyse(res *Result, c Corpus, dir string, env []string, directives map[str
 					return true
 				}
 				if fn := astx.Callee(p.TypesInfo, call); fn != nil && fn.Pkg() != nil && fn.Pkg().Path() == cffPath && fn.Type().(*types.Signature).Recv() == nil && directives[fn.Name()] {
-					res.Leftover = append(res.Leftover, fmt.Sprintf("%s/%s:%d cff.%s", c.Name, rel, p.Fset.Position(call.Pos()).Line, fn.Name()))
+					res.Leftover = append(res.Leftover, fmt.Sprintf("%s/%s:%d cff.%s", c.Name, rel, p.Fset.PositionFor(call.Pos(), false).Line, fn.Name()))
 				}
 				return true
 			})
